@@ -24,6 +24,8 @@ import (
 	"sort"
 	"strconv"
 	"strings"
+	"sync"
+	"syscall"
 	"time"
 )
 
@@ -466,6 +468,53 @@ func (f *faultReader) Read(p []byte) (int, error) {
 }
 func (f *faultReader) Close() error { return nil }
 
+// flipCtx is a context whose Err() starts to report context.Canceled at the k-th call (Done is closed at that moment)
+type flipCtx struct {
+	mu   sync.Mutex
+	n, k int
+	done chan struct{}
+}
+
+func (c *flipCtx) Deadline() (time.Time, bool)       { return time.Time{}, false }
+func (c *flipCtx) Value(key interface{}) interface{} { return nil }
+func (c *flipCtx) Done() <-chan struct{} {
+	c.mu.Lock()
+	defer c.mu.Unlock()
+	return c.done
+}
+func (c *flipCtx) Err() error {
+	c.mu.Lock()
+	defer c.mu.Unlock()
+	c.n++
+	if c.n >= c.k {
+		select {
+		case <-c.done:
+		default:
+			close(c.done)
+		}
+		return context.Canceled
+	}
+	return nil
+}
+
+// WriteLimit (bytes): while a request with Fmode "wfault" is served, no file may grow beyond it (RLIMIT_FSIZE; the recorder
+// must run single-threaded and ignore SIGXFSZ). 0 = write faults are not available.
+var WriteLimit uint64
+
+func serveLimited(h http.Handler, req *http.Request) Served {
+	var old syscall.Rlimit
+	if err := syscall.Getrlimit(syscall.RLIMIT_FSIZE, &old); err != nil {
+		return Serve(h, req)
+	}
+	low := old
+	low.Cur = WriteLimit
+	if err := syscall.Setrlimit(syscall.RLIMIT_FSIZE, &low); err != nil {
+		return Serve(h, req)
+	}
+	defer syscall.Setrlimit(syscall.RLIMIT_FSIZE, &old)
+	return Serve(h, req)
+}
+
 // pieceReader hands out its data in reads of 1, 2, 3, 1, 2, 3, ... bytes (at most 700 at a time for long bodies)
 type pieceReader struct {
 	data []byte
@@ -609,7 +658,10 @@ func (sb *Sandbox) Build(r *Req, variant int, tags func(class string) string) (*
 	switch r.M {
 	case "PUT":
 		data := ContentBytes(r.C)
-		if r.Fault {
+		if r.Fault && r.Fmode == "wfault" {
+			// the body is intact; the fault is on the storage side (Exec lowers the file size limit while the request is served)
+			body = bytes.NewReader(data)
+		} else if r.Fault {
 			fr = &faultReader{data: data, k: r.Fk, err: io.ErrUnexpectedEOF}
 			if r.Fmode == "cancel" {
 				ctx, cancel = context.WithCancel(ctx)
@@ -640,6 +692,15 @@ func (sb *Sandbox) Build(r *Req, variant int, tags func(class string) string) (*
 		}
 	case "PROPPATCH":
 		body = strings.NewReader(`<?xml version="1.0"?><D:propertyupdate xmlns:D="DAV:"><D:set><D:prop><D:displayname>x</D:displayname></D:prop></D:set></D:propertyupdate>`)
+	}
+	if r.M != "PUT" && r.Fmode == "precancel" {
+		ctx, cancel = context.WithCancel(ctx)
+		cancel()
+	}
+	if strings.HasPrefix(r.Fmode, "ctxk") {
+		// a context that reports cancellation from its k-th look on (a client that goes away while the request is being served)
+		k, _ := strconv.Atoi(r.Fmode[4:])
+		ctx = &flipCtx{k: k, done: make(chan struct{})}
 	}
 	req, err := newRequest(r.M, target, body)
 	if err != nil {
@@ -1083,7 +1144,12 @@ func (sb *Sandbox) Exec(h http.Handler, r Req, from string, pre []Entry, variant
 	if d := req.Header.Get("Destination"); d != "" {
 		st.Req.DestRaw = d
 	}
-	s := Serve(h, req)
+	var s Served
+	if r.Fmode == "wfault" && WriteLimit > 0 {
+		s = serveLimited(h, req)
+	} else {
+		s = Serve(h, req)
+	}
 	if cancel != nil {
 		cancel()
 	}
